@@ -1,5 +1,5 @@
 (* C10 — Every request starts from a pristine context whatever happened before. Property theorems only. *)
-From Rux Require Import Base Writer Chain Dispatch DispatchFacts.
+From Rux Require Import Base Str Writer Chain Dispatch DispatchFacts Reg Table TableFacts Sys SysFacts SysHistory.
 Open Scope Z_scope.
 
 (* whatever state a pooled context is in (any data, params, errors, cursor, handlers, writer state,
@@ -18,6 +18,21 @@ Proof. exact init_snapshot. Qed.
 Theorem C10_history : forall cfg o sc t pooled, serve cfg o sc t pooled = serve cfg o sc t fresh_ctx.
 Proof. exact serve_pristine. Qed.
 
+(* end to end on the whole router (Sys.v: registration program -> route table with its route cache -> lookup -> dispatch):
+   whatever the earlier requests of a history did - stored values, errors, parameters, aborts, writes, a replaced writer
+   or request, panics, cache fills and evictions - and whatever pooled context the next request is handed, it is served
+   exactly as the FIRST request of the freshly built router with a fresh context *)
+Theorem C10_history_end_to_end : forall progs hooks o ss s h m p sc pooled,
+  sys_build o ss = Ok s -> hist_no_slash h -> no_slash m ->
+  fst (sys_serve progs hooks (sys_run progs hooks s h) m p sc pooled) = fst (sys_serve progs hooks s m p sc fresh_ctx).
+Proof. exact sys_history_independent. Qed.
+(* and for every request of the history at once *)
+Theorem C10_outcomes_alone : forall progs hooks o ss s h, sys_build o ss = Ok s -> hist_no_slash h ->
+  sys_outcomes progs hooks s h = map (sys_alone progs hooks s) h.
+Proof. exact sys_outcomes_alone. Qed.
+
 Print Assumptions C10_init_pristine.
 Print Assumptions C10_first_snapshot.
 Print Assumptions C10_history.
+Print Assumptions C10_history_end_to_end.
+Print Assumptions C10_outcomes_alone.
